@@ -214,8 +214,9 @@ def write_evidence(mod, tier, seed, st: Stats, wall, nviol, extra_cov=None):
         "wall_s": round(wall, 2),
         "violations": nviol,
     }
-    os.makedirs(os.path.join(VERIF, "evidence"), exist_ok=True)
-    path = os.path.join(VERIF, "evidence", f"{mod.ID}.json")
+    evdir = os.environ.get("CMV_EVIDENCE_DIR") or os.path.join(VERIF, "evidence")  # redirected only by tools/mutant.sh
+    os.makedirs(evdir, exist_ok=True)
+    path = os.path.join(evdir, f"{mod.ID}.json")
     tmp = path + ".tmp"
     with open(tmp, "w") as f:
         json.dump(ev, f, indent=1, default=repr, ensure_ascii=False)
